@@ -31,6 +31,13 @@ fn angle() -> BoxedStrategy<f64> {
             for _ in 0..u.abs() { x = if u > 0 { next_up(x) } else { next_down(x) }; }
             x
         }),
+        // the same lattice of quarter turns (and its ulp neighbours) far from zero: k*pi/2 for |k| up to 64, up to 4096
+        // and up to 6e5 (|a| ~ 1e6), where reduction by whole turns accumulates rounding
+        2 => (prop_oneof![2 => -64i32..=64, 1 => -4096i32..=4096, 1 => -600_000i32..=600_000], -2i32..=2).prop_map(|(k, u)| {
+            let mut x = k as f64 * (PI / 2.0);
+            for _ in 0..u.abs() { x = if u > 0 { next_up(x) } else { next_down(x) }; }
+            x
+        }),
         4 => unif(-8.0 * PI, 8.0 * PI),
         1 => unif(-1.0e6, 1.0e6),
         1 => prop::sample::select(vec![-1e-20, -0.0, 0.0, 1e-300, -1e-300, TAU, -TAU, PI, -PI, 1e6, -1e6]),
@@ -74,7 +81,7 @@ impl Property for C18 {
         "cases are drawn from six families (normalise one angle; directed angle between two angles; two vectors; angular interval + probe angles; two angular intervals; scalar interval pair + probes). Angles are k*pi/2 + delta (+- a few ulp), uniform in +-8pi, up to 1e6, tiny negatives. Non-trivial: |a| > 2pi or within 1e-9 of a multiple of pi (angles), an interval that wraps 0 or has negative extent (angular intervals), overlapping-but-not-nested or infinite/degenerate bounds (scalar). Distinct = distinct canonical JSON of the case."
     }
     fn cases(t: Tier) -> u32 {
-        t.pick(2_000_000, 100_000_000)
+        t.pick(8_000_000, 100_000_000)
     }
     fn expected_labels() -> Vec<&'static str> {
         vec!["norm", "dir", "vecs", "aint", "aint_pair", "int", "wraps_zero", "neg_extent", "full_turn", "int_infinite", "int_degenerate", "vec_opposite"]
